@@ -96,6 +96,11 @@ class _FuseBatchNormBase(RewriteRuleClassBase, ABC):
         inbound_node = inbound_out.producer()
         batchnorm_node = batchnorm_out.producer()
 
+        # In training mode the output is normalized with the statistics of the current batch,
+        # not with the stored mean/var that the fusion folds into the weights.
+        if batchnorm_node.attributes.get_int("training_mode", 0) != 0:
+            return check_result.fail("BatchNormalization is in training mode.")
+
         # Check that inbound weights + (inbound bias) + batchnorm params are initializers
         # and that they are not graph inputs
         initializers = [inbound_node.inputs[1], *batchnorm_node.inputs[1:]]
@@ -213,6 +218,18 @@ class FuseBatchNormIntoGemm(_FuseBatchNormBase):
             _allow_other_inputs=True,
             _outputs=["batchnorm_out"],
         )
+
+    def check(self, context, x, inbound_out, batchnorm_out):
+        check_result = super().check(context, x, inbound_out, batchnorm_out)
+        if not check_result:
+            return check_result
+
+        # Gemm multiplies its bias by beta, so (B - mean) * scale + bn_bias can only be
+        # passed as the new bias when beta is 1.
+        if inbound_out.producer().attributes.get_float("beta", 1.0) != 1.0:
+            return check_result.fail("Gemm beta must be 1 to fuse BatchNormalization.")
+
+        return check_result
 
 
 fuse_batchnorm_into_conv_rule = FuseBatchNormIntoConv().rule()
